@@ -78,12 +78,17 @@ def _prims():
         24: (dflt(HostName, {}, "h.org"), "example.com", "a.b.c", "-x-", "h.org"),
         25: (lambda d: DecimalNumber(), decimal.Decimal("1.5"), decimal.Decimal("-2"), "x", None),
         26: (lambda d: JSONString(), '{"a": 1}', "[]", "{", None),
+        # AnyOf whose options OVERLAP and normalise differently: the first valid value is accepted by both options
+        # (the first one converts it), the second only by the later option
+        27: (lambda d: AnyOf[DateField, String], "2020-01-31", "some day", 5, None),
+        28: (lambda d: AnyOf[Integer, Float], 3, 2.5, "x", None),
+        29: (lambda d: AnyOf[Enum[PyEnum], String], "A", "zz", 5, None),
     }
     return P, PyEnum
 
 
 INLINES = {12: 1}
-N_PRIMS = 27
+N_PRIMS = 30
 DEFAULTABLE = [0, 1, 2, 3, 4, 5, 8, 17, 18, 19, 20, 21, 23, 24]
 INTERNAL = ("_instantiated", "_none_fields", "_trust_supplied_values", "_skip_validation")
 
@@ -295,6 +300,9 @@ class Env:
         for f in src["fields"]:
             body[f["name"]] = self.build_field(f)
         mapper = {f["name"]: f["key"] for f in src["fields"] if f.get("key") and f["key"] != f["name"]}
+        for f in src["fields"]:
+            if f.get("submap"):       # owner-side key names for the nested class: "<field>._mapper": {...}
+                mapper[f["name"] + "._mapper"] = dict(f["submap"])
         if mapper:
             body["_serialization_mapper"] = mapper
         if src.get("addProps") is not None:
@@ -371,6 +379,8 @@ class Env:
     def op_instance(self, c, op):
         if op.get("probe") == "required":
             return self.classes[c](**self.required_kwargs(c))
+        if op.get("probe") == "valid1":      # the SECOND valid value of every field (nested instances: the first)
+            return self.classes[c](**self.valid_kwargs(c, 1))
         return self.instance(c)
 
     def instance(self, c, depth=0):
@@ -432,7 +442,7 @@ class Env:
         try:
             if kind == "construct":
                 cls(**({} if op.get("probe") == "empty" else self.required_kwargs(c)
-                       if op.get("probe") == "required" else self.valid_kwargs(c)))
+                       if op.get("probe") == "required" else self.valid_kwargs(c, 1 if op.get("probe") == "valid1" else 0)))
             elif kind == "serialize":
                 doc = serialize(self.op_instance(c, op), camel_case_convert=bool(op.get("camel")))
                 from typedpy.structures import TypedPyDefaults
@@ -443,7 +453,7 @@ class Env:
                 Deserializer(cls, camel_case_convert=camel).deserialize(
                     serialize(self.op_instance(c, op), camel_case_convert=camel))
             elif kind == "trusted":
-                Deserializer(cls).deserialize(serialize(self.instance(c)), direct_trusted_mapping=True)
+                Deserializer(cls).deserialize(serialize(self.op_instance(c, op)), direct_trusted_mapping=True)
             elif kind == "toSchema":
                 before = sorted(cls._required)
                 try:
